@@ -106,6 +106,27 @@ def evalSel (opa : F) (nArg : Option Nat) (ns : F) (Rs : List F) (keep : List Bo
   let sel := ((Rs.zip keep).filter (fun p => p.2)).map (fun p => p.1)
   llrOfRatios opa (trialCounts nArg Rs.length sel.length).1 ns sel
 
+/-! #### Data fields that depend on global fit parameters (`DataField._calc_global_fitparam_dependent_values`)
+
+The field remembers the parameter values it was last calculated for (`_global_fitparam_value_list`);
+`initialize_trial` forgets the field (`none`).  It is recalculated when it does not exist yet or when
+**any** of its parameters differs from the remembered value. -/
+
+/-- `(remembered parameter values afterwards, was the field recalculated?)`; `p` the current values
+of the parameters the field depends on -/
+def fieldStep (st : Option (List F)) (p : List F) : Option (List F) × Bool :=
+  match st with
+  | none => (some p, true)
+  | some q =>
+      if (List.zip p q).any (fun x => decide (x.1 < x.2) || decide (x.2 < x.1)) then (some p, true)
+      else (some q, false)
+
+/-- a sequence of evaluations within one trial: for each the parameter values the field content
+belongs to, and whether it was recalculated -/
+def fieldRun (st : Option (List F)) : List (List F) → List (Option (List F) × Bool)
+  | [] => []
+  | p :: rest => fieldStep st p :: fieldRun (fieldStep st p).1 rest
+
 /-! #### Compositions of PDF ratios as a datatype ("every PDF-ratio composition")
 
 `leaf`: a ratio object returning prescribed values; `prod`: `PDFRatioProduct` (`pdfratio1 * pdfratio2`,
